@@ -18,7 +18,9 @@ TRACE_CFG = 'SPECIFICATION TraceSpec\nCONSTANTS MaxBad = 60000 KeyedBy = "full" 
 MODES = ["own", "alt.Recompose", "oj.Unmarshal", "sen.Unmarshal"]
 # kinds of the C15 menu that can be recomposed at all (exported fields, no custom encoders, no time: see DESIGN-notes/C16.md)
 RT_KINDS = {"bool", "int", "uint8", "float", "string", "*int", "*S", "[]int", "[]uint8", "[]S", "[]*S", "[2]int", "map[string]int",
-            "map[string]string", "map[string]*S", "any", "S", "anon", "E1", "*E1", "T1", "T2", "*T2", "U", "V", "W", "MyInt"}
+            "map[string]string", "map[string]*S", "map[string]M", "map[string]*M", "[]M", "[]*M", "any", "S", "anon", "E1", "*E1",
+            "E3", "T1", "T2", "*T2", "U", "V", "W", "MyInt"}
+NAPI = 16   # round-trip routes: 3 routes x 3 key naming modes x value / pointer source (harness rtAPIs)
 
 
 def pred_str(p):
@@ -52,7 +54,7 @@ def judge(ctx, cases):
             fo.write(p.stdout)
             index += verif.read_ndjson(cx)
     res = ctx.validate("TraceRecompose", trace, cfg=TRACE_CFG, chunk=4000, heap="3g", timeout=1500)
-    ctx.cov["evaluations"] += sum(2 * len(c["h"]) for c in hist) + 3 * len(rts)
+    ctx.cov["evaluations"] += sum(2 * len(c["h"]) for c in hist) + (res["n"] - len(hist) if rts else 0)
     recs = []
     for b in res["bad"]:
         case = index[b["i"] - 1]
@@ -72,7 +74,7 @@ def judge(ctx, cases):
         else:
             kinds = "+".join(sorted({f["k"] + ("=" + f["v"] if f["v"] != "n" else "") for f in case.get("f", [])})) or (case.get("top", "") + "=" + case.get("v", ""))
             culprit = classify_rt(case, b["m"])
-            recs.append({"api": b["api"], "kind": b["kind"], "locus": "inverse|" + culprit, "witness": kinds,
+            recs.append({"api": b["api"], "kind": b["kind"], "locus": ("alias|" if b["kind"] == "aliased" else "inverse|") + culprit, "witness": kinds,
                          "case": {"f": case.get("f", []), "top": case.get("top", ""), "v": case.get("v", ""), "api": case["api"]},
                          "detail": {"m": b["m"]}})
     return recs
@@ -105,14 +107,14 @@ def main(ctx):
     ctx.cov["model_predicted_colliding"] = sum(1 for h in hs if "collides" in h["pred"])
     cases = [{"h": h["h"], "mode": m} for m in MODES for h in hs]
     # Inverse on the C15 shapes TLC enumerates (recomposable kinds only)
-    g = ctx.tlc("EncodeGen", "EncodeGen_quick.cfg", workers=1, timeout=900)
+    g = ctx.tlc("EncodeGen", "EncodeGen_rt.cfg" if ctx.quick else "EncodeGen_rt3.cfg", workers=1, timeout=900)
     if g.error or g.violated:
         raise Infra("shape generation failed:\n" + g.out[-2000:])
     sseen = set()
     for c in g.printed("CASE"):
         # W=e holds a *enctypes2.T: its create key "T" names enctypes.T unless FullTypePath is used (ambiguous by design)
         if all(f["k"] in RT_KINDS and f["t"] in ("", "nm") and not (f["k"] == "W" and f["v"] == "e") for f in c["f"]) \
-                and (ctx.quick is False or len(c["f"]) <= 2):
+                and len(c["f"]) <= (2 if ctx.quick else 3):
             k = json.dumps(c, sort_keys=True)
             if k not in sseen:
                 sseen.add(k)
@@ -128,11 +130,14 @@ def main(ctx):
     ctx.sample(cases[-40])
     ctx.cov["distinct_nontrivial"] = len(hs)
     ctx.cov["round_trip_shapes"] = len(cases) - 4 * len(hs)
+    ctx.cov["round_trip_routes"] = NAPI
     ctx.cov["rule"] = ("every presentation history of length <= %d over the 8-type family (same short name in two packages, two "
                        "anonymous structs, []T, *otherpkg.T, *T, interface field) replayed on one alt.Recomposer and, one fresh "
                        "process per history, on alt.DefaultRecomposer via alt.Recompose / oj.Unmarshal / sen.Unmarshal, each call "
                        "compared with a fresh recomposer and with the original; plus Decompose->Recompose, Marshal->Unmarshal and "
-                       "sen round trips of the recomposable C15 shapes. distinct_nontrivial = histories." % (3 if ctx.quick else 4))
+                       "sen round trips of the recomposable shapes TLC enumerates (EncodeGen_rt) under the three key naming modes, "
+                       "from a value and from a pointer (addressable), repeated 6 times for shapes with maps (random map order), "
+                       "judged for deep equality and for storage shared between positions. distinct_nontrivial = histories." % (3 if ctx.quick else 4))
     ctx.cov["exhaustive"] = False
     ctx.assumptions += ["deep equality is judged by TLC on the typed projection of reflect values (nil and empty slices/maps identified)",
                         "interface-typed fields: the held types are registered and a create key is used; the A.W history target is "
